@@ -511,6 +511,44 @@ Section Sim.
     rewrite S4. reflexivity.
   Qed.
 
+  (** ** the token of a control sequence *)
+  Lemma name_ok_not_env name post : name_ok name post = true ->
+    str_eqb name kw_begin = false /\ str_eqb name kw_end = false.
+  Proof.
+    destruct name as [|c nm]; [discriminate|]. cbn [name_ok]. destruct (is_alpha c) eqn:AC.
+    - intros H. apply andb_true_iff in H. destruct H as [H NE]. apply andb_true_iff in H. destruct H as [_ NB].
+      apply negb_true_iff in NE. apply negb_true_iff in NB. tauto.
+    - destruct nm; [|discriminate]. intros _. unfold kw_begin, kw_end. cbn. rewrite !andb_false_r. tauto.
+  Qed.
+
+  Lemma mac_tok q pos ws name post rest : Std cx q ->
+    ws_ok ws = true -> ws_ok post = true -> name_ok name post = true ->
+    mac_follow_ok name post (hd_error rest) = true ->
+    skipn pos s = ws ++ 92%N :: name ++ post ++ rest ->
+    impl_peek q s pos
+    = TokOk (mk TkMacro name (pos + length ws) (pos + length ws + 1 + length name + length post) ws post).
+  Proof.
+    intros SQ W Wp NM FO SK'. pose proof (std_view_of cx q SQ) as V.
+    pose proof (skipn_shift _ _ _ _ SK') as SK0. set (p0 := pos + length ws) in *.
+    destruct name as [|c nm]; [discriminate|]. cbn [name_ok] in NM. cbn [mac_follow_ok] in FO.
+    cbn [app] in SK', SK0.
+    rewrite (impl_peek_dispatch q s pos ws 92%N _ W SK' space_92). fold p0.
+    destruct (is_alpha c) eqn:AC.
+    - apply andb_true_iff in NM. destruct NM as [NM NE]. apply andb_true_iff in NM. destruct NM as [NA NB].
+      apply negb_true_iff in NE. apply negb_true_iff in NB.
+      apply andb_true_iff in FO. destruct FO as [F1 F2]. apply negb_true_iff in F1.
+      rewrite (dispatch_macro_word cx q V s p0 ws c nm post rest SK0 AC NA Wp
+                 (otest_hd_not _ _ F1)); [| |exact NB|exact NE].
+      + cbn [length]. f_equal. f_equal. lia.
+      + intros ->. apply negb_true_iff in F2. apply otest_hd_not. exact F2.
+    - destruct nm; [|discriminate]. destruct post; [|discriminate].
+      apply negb_true_iff in NM. cbn [mem_c existsb] in NM.
+      repeat (apply orb_false_iff in NM; destruct NM as [? NM]).
+      cbn [app] in SK0 |- *.
+      rewrite (dispatch_macro_sym cx q V s p0 ws c _ SK0 AC) by assumption.
+      cbn [length]. f_equal. f_equal. lia.
+  Qed.
+
   (** ** one argument *)
   Definition is_abs (a : item2) : bool := match a with Abs2 => true | _ => false end.
   Definition arg_fuel (a : item2) : nat := if is_abs a then 2 else 8 * ilen2 a.
@@ -541,39 +579,108 @@ Section Sim.
     assert (SDa : Std cx aps) by (apply std_adelta; exact SD).
     assert (ENa : f_en_envs (ps_f aps) = f_en_envs (ps_f ps)) by apply en_envs_adelta.
     destruct (a_kind spc) as [sp|o c opt sp|ch sp full|d] eqn:AK.
-    - (* a braced group *)
-      destruct a as [|ws b tr| | | | | | | |]; try discriminate.
-      apply andb_true_iff in OKA. destruct OKA as [AP OKI].
-      rewrite ok_item_grp2 in OKI. apply andb_true_iff in OKI. destruct OKI as [OKI OKB].
-      apply andb_true_iff in OKI. destruct OKI as [WA W].
-      cbn [isize2] in SZ. fold (lsize2 b) in SZ.
-      assert (SK' : skipn pa s = ws ++ 123%N :: unparse_items2 b ++ tr ++ 125%N :: fa).
-      { unfold unparse_items2. cbn [unparse_item2] in SK. rewrite <- !app_assoc in SK. cbn [app] in SK.
-        rewrite <- !app_assoc in SK. exact SK. }
-      split; [|apply (peek_no_err ps pa ws 123%N _ SD WA space_123 eq_refl SK')].
-      set (q0 := pa + length ws).
-      pose proof (skipn_shift _ _ _ _ SK') as SK0. fold q0 in SK0.
-      pose proof (grp_run2 n IH aps q0 ws b tr fa SDa ltac:(lia) W OKB SK0) as G.
-      assert (TP : forall q pre pp, Std cx q -> ws_ok pre = true -> skipn pp s = pre ++ 123%N :: unparse_items2 b ++ tr ++ 125%N :: fa ->
-                   impl_peek q s pp = TokOk (mk TkBraceOpen [123%N] (pp + length pre) (S (pp + length pre)) pre [])).
-      { intros q pre pp SQ WP SKp. rewrite (impl_peek_dispatch q s pp pre 123%N _ WP SKp space_123).
-        apply (dispatch_open cx q (std_view_of cx q SQ)). }
-      cbn [item_ws2]. fold q0.
-      replace (pa + ilen2 (Grp2 ws b tr)) with (q0 + 1 + length (unparse_items2 b) + length tr + 1)
-        by (rewrite ilen_grp2; unfold q0; lia).
-      unfold arg_fuel. cbn [is_abs]. rewrite ilen_grp2.
-      destruct ws as [|w ws'].
-      + pose proof (TP _ [] q0 (std_no_envs cx aps SDa) eq_refl SK0) as T. cbn [length] in T. rewrite Nat.add_0_r in T.
-        pose proof (rule_texpr s cx _ aps sp sp true q0 _ _ T G) as G2.
-        pose proof (rule_tstdarg s cx _ aps sp q0 _ _ G2) as G3.
-        unfold q0 in *. cbn [length] in *. rewrite Nat.add_0_r in *.
-        rewrite (lift _ _ _ _ G3); [reflexivity|discriminate|lia].
-      + cbn [is_nil] in AP. rewrite orb_false_r in AP. subst sp.
-        pose proof (TP _ (w :: ws') pa (std_no_envs cx aps SDa) WA SK') as T1. fold q0 in T1.
-        pose proof (TP _ [] q0 (std_no_envs cx aps SDa) eq_refl SK0) as T2. cbn [length] in T2. rewrite Nat.add_0_r in T2.
-        pose proof (rule_texpr_ws s cx _ aps true true pa w ws' _ _ T1 T2 G) as G2.
-        pose proof (rule_tstdarg s cx _ aps true pa _ _ G2) as G3.
-        rewrite (lift _ _ _ _ G3); [reflexivity|discriminate|cbn [length]; lia].
+    - (* a mandatory argument: a braced group or a single token *)
+      destruct a as [ws cs|ws b tr|ws name post margs| | | | |ws chars sargs| |]; try discriminate.
+      + (* a single character *)
+        destruct cs as [|c [|? ?]]; try discriminate.
+        apply andb_true_iff in OKA. destruct OKA as [OKA IN].
+        apply andb_true_iff in OKA. destruct OKA as [AP WA].
+        destruct (inert_facts cx c IN) as (SPC & C92 & _).
+        cbn [unparse_item2] in SK. rewrite <- app_assoc in SK. cbn [app] in SK.
+        split; [|apply (peek_no_err ps pa ws c _ SD WA SPC C92 SK)].
+        pose proof (std_no_envs cx aps SDa) as SDe.
+        assert (TP : forall pre pp, ws_ok pre = true -> skipn pp s = pre ++ c :: fa ->
+                     impl_peek (sub_context aps [UEnEnvs false]) s pp
+                     = TokOk (mk TkChar [c] (pp + length pre) (S (pp + length pre)) pre [])).
+        { intros pre pp WP SKp. rewrite (impl_peek_dispatch _ s pp pre c fa WP SKp SPC).
+          apply (dispatch_char cx _ (std_view_of cx _ SDe)). exact IN. }
+        unfold arg_fuel. cbn [is_abs item_ws2]. unfold ilen2. cbn [unparse_item2]. rewrite app_length. cbn [length].
+        replace (pa + length ws + 1) with (S (pa + length ws)) by lia.
+        replace (pa + (length ws + 1)) with (S (pa + length ws)) by lia.
+        destruct ws as [|w ws'].
+        * pose proof (TP [] pa eq_refl SK) as T. cbn [length] in T |- *. rewrite Nat.add_0_r in T |- *.
+          pose proof (rule_texpr_char s cx 0 aps sp sp true [] pa c T) as G2.
+          pose proof (rule_tstdarg s cx _ aps sp pa _ _ G2) as G3.
+          rewrite (lift _ _ _ _ G3); [reflexivity|discriminate|lia].
+        * cbn [is_nil] in AP. rewrite orb_false_r in AP. subst sp.
+          pose proof (TP (w :: ws') pa WA SK) as T1.
+          pose proof (TP [] (pa + length (w :: ws')) eq_refl (skipn_shift _ _ _ _ SK)) as T2.
+          cbn [length] in T2. rewrite Nat.add_0_r in T2.
+          pose proof (rule_texpr_char_ws s cx 0 aps true true pa w ws' c T1 T2) as G2.
+          pose proof (rule_tstdarg s cx _ aps true pa _ _ G2) as G3.
+          rewrite (lift _ _ _ _ G3); [reflexivity|discriminate|cbn [length]; lia].
+      + (* a braced group *)
+        apply andb_true_iff in OKA. destruct OKA as [AP OKI].
+        rewrite ok_item_grp2 in OKI. apply andb_true_iff in OKI. destruct OKI as [OKI OKB].
+        apply andb_true_iff in OKI. destruct OKI as [WA W].
+        cbn [isize2] in SZ. fold (lsize2 b) in SZ.
+        assert (SK' : skipn pa s = ws ++ 123%N :: unparse_items2 b ++ tr ++ 125%N :: fa).
+        { unfold unparse_items2. cbn [unparse_item2] in SK. rewrite <- !app_assoc in SK. cbn [app] in SK.
+          rewrite <- !app_assoc in SK. exact SK. }
+        split; [|apply (peek_no_err ps pa ws 123%N _ SD WA space_123 eq_refl SK')].
+        set (q0 := pa + length ws).
+        pose proof (skipn_shift _ _ _ _ SK') as SK0. fold q0 in SK0.
+        pose proof (grp_run2 n IH aps q0 ws b tr fa SDa ltac:(lia) W OKB SK0) as G.
+        assert (TP : forall q pre pp, Std cx q -> ws_ok pre = true -> skipn pp s = pre ++ 123%N :: unparse_items2 b ++ tr ++ 125%N :: fa ->
+                     impl_peek q s pp = TokOk (mk TkBraceOpen [123%N] (pp + length pre) (S (pp + length pre)) pre [])).
+        { intros q pre pp SQ WP SKp. rewrite (impl_peek_dispatch q s pp pre 123%N _ WP SKp space_123).
+          apply (dispatch_open cx q (std_view_of cx q SQ)). }
+        cbn [item_ws2]. fold q0.
+        replace (pa + ilen2 (Grp2 ws b tr)) with (q0 + 1 + length (unparse_items2 b) + length tr + 1)
+          by (rewrite ilen_grp2; unfold q0; lia).
+        unfold arg_fuel. cbn [is_abs]. rewrite ilen_grp2.
+        destruct ws as [|w ws'].
+        * pose proof (TP _ [] q0 (std_no_envs cx aps SDa) eq_refl SK0) as T. cbn [length] in T. rewrite Nat.add_0_r in T.
+          pose proof (rule_texpr s cx _ aps sp sp true q0 _ _ T G) as G2.
+          pose proof (rule_tstdarg s cx _ aps sp q0 _ _ G2) as G3.
+          unfold q0 in *. cbn [length] in *. rewrite Nat.add_0_r in *.
+          rewrite (lift _ _ _ _ G3); [reflexivity|discriminate|lia].
+        * cbn [is_nil] in AP. rewrite orb_false_r in AP. subst sp.
+          pose proof (TP _ (w :: ws') pa (std_no_envs cx aps SDa) WA SK') as T1. fold q0 in T1.
+          pose proof (TP _ [] q0 (std_no_envs cx aps SDa) eq_refl SK0) as T2. cbn [length] in T2. rewrite Nat.add_0_r in T2.
+          pose proof (rule_texpr_ws s cx _ aps true true pa w ws' _ _ T1 T2 G) as G2.
+          pose proof (rule_tstdarg s cx _ aps true pa _ _ G2) as G3.
+          rewrite (lift _ _ _ _ G3); [reflexivity|discriminate|cbn [length]; lia].
+      + (* a control sequence *)
+        destruct margs; try discriminate.
+        apply andb_true_iff in OKA. destruct OKA as [OKA FO].
+        apply andb_true_iff in OKA. destruct OKA as [OKA GS].
+        apply andb_true_iff in OKA. destruct OKA as [OKA NM].
+        apply andb_true_iff in OKA. destruct OKA as [WA Wp].
+        destruct (get_macro_spec cx name) as [msp|] eqn:GM; [|discriminate].
+        destruct (name_ok_not_env name post NM) as [NB NE].
+        assert (SK' : skipn pa s = ws ++ 92%N :: name ++ post ++ fa).
+        { cbn [unparse_item2 flat_map] in SK. rewrite app_nil_r in SK. rewrite <- !app_assoc in SK. cbn [app] in SK.
+          rewrite <- !app_assoc in SK. exact SK. }
+        split.
+        * pose proof (mac_tok _ pa ws name post fa (std_no_envs cx aps SDa) WA Wp NM FO SK') as T.
+          pose proof (rule_texpr_macro s cx 0 aps sp sp true pa name _ _ ws post msp T NB NE GM) as G2.
+          pose proof (rule_tstdarg s cx _ aps sp pa _ _ G2) as G3.
+          assert (NL : 1 <= length name) by (destruct name; [discriminate|cbn; lia]).
+          unfold arg_fuel. cbn [is_abs item_ws2]. rewrite ilen_mac2. cbn [unparse_items2 flat_map length].
+          rewrite (lift _ _ _ _ G3); [|discriminate|lia].
+          cbn [parse_content]. f_equal. lia.
+        * intros e. rewrite (mac_tok ps pa ws name post fa SD WA Wp NM FO SK'). discriminate.
+      + (* a specials sequence *)
+        destruct chars as [|c cr]; try discriminate. destruct sargs; try discriminate.
+        apply andb_true_iff in OKA. destruct OKA as [OKA TS].
+        apply andb_true_iff in OKA. destruct OKA as [WA PS].
+        destruct (test_specials (map fst (cx_specials cx)) ((c :: cr) ++ fa) None) as [sc|] eqn:TS'; [|discriminate].
+        apply pe_str_eqb_eq in TS. subst sc.
+        destruct (plain_start_facts c PS) as (SPC & C92 & _).
+        assert (SK' : skipn pa s = ws ++ c :: cr ++ fa).
+        { cbn [unparse_item2 flat_map] in SK. rewrite app_nil_r in SK. rewrite <- !app_assoc in SK. exact SK. }
+        split; [|apply (peek_no_err ps pa ws c _ SD WA SPC C92 SK')].
+        pose proof (std_no_envs cx aps SDa) as SDe.
+        assert (T : impl_peek (sub_context aps [UEnEnvs false]) s pa
+                    = TokOk (mk TkSpecials (c :: cr) (pa + length ws) (pa + length ws + length (c :: cr)) ws [])).
+        { rewrite (impl_peek_dispatch _ s pa ws c (cr ++ fa) WA SK' SPC).
+          apply (dispatch_specials cx _ (std_view_of cx _ SDe) s _ ws c cr fa PS TS'). }
+        pose proof (rule_texpr_spc s cx 0 aps sp sp true pa (c :: cr) _ _ ws T) as G2.
+        pose proof (rule_tstdarg s cx _ aps sp pa _ _ G2) as G3.
+        unfold arg_fuel. cbn [is_abs item_ws2]. rewrite ilen_spc2. cbn [unparse_items2 flat_map].
+        rewrite (lift _ _ _ _ G3); [|discriminate|cbn [length]; lia].
+        cbn [parse_content]. f_equal. cbn [length]. lia.
     - (* a delimited argument *)
       destruct o as [|oc' [|? ?]]; try (destruct a; discriminate); try (destruct a; destruct opt; discriminate).
       destruct c as [|cc' [|? ?]]; try (destruct a; discriminate); try (destruct a; destruct opt; discriminate).
@@ -661,11 +768,14 @@ Section Sim.
   Lemma ok_arg_len ps spc a fa : ok_arg2 cx ps spc a fa = true -> is_abs a = false -> 1 <= ilen2 a.
   Proof.
     unfold ok_arg2. intros H NA.
-    destruct a as [ws cs|ws b tr| | | | | | |ws oc cc b tr|]; try discriminate NA;
+    destruct a as [ws cs|ws b tr|ws name post margs| | | | |ws chars sargs|ws oc cc b tr|]; try discriminate NA;
       try (destruct (a_kind spc) as [?|[|? [|? ?]] [|? [|? ?]] [|] ?|[|? [|? ?]] ? ?|?]; discriminate H).
-    - destruct (a_kind spc) as [?|[|? [|? ?]] [|? [|? ?]] [|] ?|[|? [|? ?]] ? ?|?]; try discriminate H.
-      destruct cs as [|c [|? ?]]; try discriminate H. unfold ilen2. cbn [unparse_item2]. rewrite app_length. cbn. lia.
+    - destruct (a_kind spc) as [?|[|? [|? ?]] [|? [|? ?]] [|] ?|[|? [|? ?]] ? ?|?]; try discriminate H;
+        (destruct cs as [|c [|? ?]]; try discriminate H; unfold ilen2; cbn [unparse_item2]; rewrite app_length; cbn; lia).
     - rewrite ilen_grp2. lia.
+    - rewrite ilen_mac2. lia.
+    - destruct (a_kind spc) as [?|[|? [|? ?]] [|? [|? ?]] [|] ?|[|? [|? ?]] ? ?|?]; try discriminate H.
+      destruct chars; [discriminate H|]. rewrite ilen_spc2. cbn [length]. lia.
     - rewrite ilen_brk2. lia.
   Qed.
 
